@@ -386,6 +386,11 @@ async def observe(w, n, struct, rng, sections=None, nparts=None):
         obs["cat"] = item(first["HEADER"] + first["TEXT"])
     else:
         obs["cat"] = item(b"")
+    # for large literals only: how header+text misses the body (a diagnosis for the report, not a verdict)
+    h, t, f = first.get("HEADER", b""), first.get("TEXT", b""), first.get("", b"")
+    obs["catdiag"] = ("empty-text-as-CRLF" if h == f and t == b"\r\n" else
+                      "text-not-the-rest" if f.startswith(h) else
+                      "header-from-inside" if h in f else "header-not-the-start")
     obs["fields"] = fields_of(first[""]) if "" in first else []
     obs["leaves"] = leaves_of(first[""]) if "" in first else []
     return obs
